@@ -131,6 +131,16 @@ CLAIMED = {
          "interpreter disciplines. That the state machine as a whole recognises exactly the grammar is NOT decided.",
     technique="regex-to-DFA language/extent comparison + constant evaluation of tables vs reference + CFG dominance with edge facts",
     ref="4/C01"),
+ "C03": dict(
+    text="Every accepted token is recorded or structurally consumed: P1 no verdict of the argument checker / addchild is dropped, P2 pending "
+         "constructs at end of input are rejected, P5/P9 blocks only on controls that take them; P10 the tree containers (Parser.result, "
+         "Command.children, arguments, extra_arguments) have exactly the expected writers and only append-style writes; P11 __up records the "
+         "current top-level command exactly once, before the parent walk, with the comments collected since the previous one; G3/G4 every store "
+         "uses the matched slot's own name as key and the unmodified incoming value under that slot's tests; G7 a positional optional slot is "
+         "advanced past once filled; T3' reassign_arguments only moves values into empty slots. Tree equality with an independent RFC 8.2 parse "
+         "is NOT decided.",
+    technique="who-may-write ownership of the tree containers + CFG dominance/cycle queries on the recording sites + def-use of store keys/values",
+    ref="4/C03"),
 }
 NA = {}
 
